@@ -49,6 +49,22 @@ Theorem c11_identity_rewrite_verbatim : forall (isln : N -> bool) (lower : N -> 
 Proof. exact identity_verbatim_stmt. Qed.
 Print Assumptions c11_identity_rewrite_verbatim.
 
+(* What refactor.Template writes for an expression without reporting an error for it is the expression as it was, or
+   text that the parser accepts (second hunt, finding C11/1, repaired: the printed result of a transformation is
+   read back; before, `webhook + 1 + ... + 1` exactly as deep as Parse allows was rewritten to `webhook.json + ...`,
+   one level too deep, without an error).  NOTE on the nesting limit: excellent.Parse rejects expressions nested
+   deeper than MaxParseDepth = 2500 levels, the parser MODEL (parse_tokens) has no such limit.  All theorems of this
+   file that conclude "the printed text parses" speak about the model, i.e. about the real parser for expressions
+   whose printed form stays within the limit: printing keeps the nesting of the source (norm and a rename to a NAME
+   leave erase - the shape - unchanged, c11_rename_exact), a rename to a path of k segments adds k-1 levels at the
+   renamed leaf, so the hypothesis in terms of the real code is: nesting of the source <= MaxParseDepth - (k-1).  At
+   the limit itself the read-back step makes refactor.Template report the error and keep the expression. *)
+Theorem c11_refactor_output_parses : forall (lower : N -> N) (printable : N -> bool) (tx : expr -> option expr) src s,
+  refactor_expression lower printable tx src = ROk s ->
+  s = src \/ exists ts t, lex s = LOk ts /\ parse_tokens ts = POk t.
+Proof. exact refactor_output_parses_stmt. Qed.
+Print Assumptions c11_refactor_output_parses.
+
 (* Second sentence, renaming: ContextRefRename(from, to) — the renaming proper is modelled by rename, with is_from n =
    (n and from have the same lower case, as in evaluation; since the repair of hunt finding C11/2, before: EqualFold) —
    renames exactly the FREE context references that match, in place (frefs: the references not inside an
@@ -97,6 +113,21 @@ Theorem c11_rename_avoids_capture : forall (lower : N -> N) (from to : ExSyntax.
     captures lower from m false (avoid lower from to (target_names lower to) (used_names lower e) e) = false.
 Proof. exact rename_avoids_capture_stmt. Qed.
 Print Assumptions c11_rename_avoids_capture.
+
+(* ... and that step never MERGES parameters (second hunt, finding C11/2: before its repair two parameters that differ
+   only by case, (Bar, bar), both became bar_ and the second argument replaced the first): each parameter keeps its own
+   spelling and gets the suffix of the fresh name appended, so in every anonymous function whose parameters have
+   pairwise different spellings they still have afterwards (distinct_params).  c11_rename_avoids_capture holds for
+   either version of the step - it speaks about capture only, and no hypothesis of it excluded that input; this is
+   the statement that does.  Witness rename_case_variant_witness: ((Bar, bar) => foo & bar)("1", "2"), foo renamed to
+   bar, gives ((Bar_, bar_) => bar & bar_)("1", "2").  Which of two case variants a reference resolves to (the first
+   in A-Z order, XObject.Get) is unchanged because both get the same suffix; that part is the driver's oracle. *)
+Theorem c11_rename_keeps_parameters : forall (lower : N -> N) (from to : ExSyntax.text) e,
+  (forall c, lower (lower c) = lower c) -> lower 95 = 95 ->
+  distinct_params e = true ->
+  distinct_params (avoid lower from to (target_names lower to) (used_names lower e) e) = true.
+Proof. exact rename_keeps_parameters_stmt. Qed.
+Print Assumptions c11_rename_keeps_parameters.
 
 (* "evaluates to the same value": PARTIAL — on the expression fragment model/ExTemplate.v evaluates (text
    literals, null, context properties, parentheses, &) the normalised tree evaluates exactly like the original in
